@@ -11,9 +11,8 @@ TIERS = {
     # ACC_T, MaxN, Rich, AccGrid, BigN, DenseGrid, chunks
     "quick": dict(acc_t=40, maxn=2, rich="FALSE", grid="{0, 13, 39, 40}", bign=5,
                   dense="{0, 1, 9, 17, 20, 27, 33, 38, 39, 40}", chunks=6),
-    # ACC_T = 100: TLC integers are 32 bit and the exact comparisons cross-multiply (6 * n * ACC_T)^2
-    "thorough": dict(acc_t=100, maxn=3, rich="TRUE", grid="{0, 1, 33, 67, 90, 99, 100}", bign=8,
-                     dense="{%s}" % ", ".join(str(i) for i in sorted(set(list(range(0, 101, 3)) + [1, 99, 100]))), chunks=14),
+    "thorough": dict(acc_t=200, maxn=3, rich="TRUE", grid="{0, 1, 67, 133, 180, 199, 200}", bign=8,
+                     dense="{%s}" % ", ".join(str(i) for i in range(0, 201, 5)), chunks=14),
 }
 
 # C12 decides on: requirement flags, idempotence, uses, exact equality with the transcription
